@@ -13,8 +13,8 @@ def ob(results, name, tags, ok, detail=''):
 
 
 def prove(*f):
-    s = z3.Solver(); s.set('timeout', 20000); s.add(*f)
-    return s.check() == z3.unsat
+    import zutil
+    return zutil.check(*f) == z3.unsat
 
 
 def seeds(funcs, results):
